@@ -113,3 +113,206 @@ Proof.
         destruct H2 as [k2 [E _]]. inversion E. subst. contradiction. }
     apply Hgen. apply seq_NoDup.
 Qed.
+
+(* the zero mode is the first element of `.flat` *)
+Lemma all_idx_head shape : Forall (fun n => (0 < n)%nat) shape ->
+  exists r, all_idx shape = zero_idx shape :: r.
+Proof.
+  induction 1 as [|n rest Hn _ [r IH]]; simpl.
+  - exists []. reflexivity.
+  - destruct n as [|n']; [lia|]. simpl. rewrite IH. simpl. eexists. reflexivity.
+Qed.
+
+Lemma all_idx_nonempty_pos shape : Forall (fun n => (0 < n)%nat) shape -> (0 < size_of shape)%nat.
+Proof. intros H. destruct (all_idx_head shape H) as [r E]. unfold size_of. rewrite E. simpl. lia. Qed.
+
+Lemma zero_not_in_tail shape r : all_idx shape = zero_idx shape :: r -> ~ In (zero_idx shape) r.
+Proof.
+  intros E. pose proof (NoDup_all_idx shape) as H. rewrite E in H. inversion H. assumption.
+Qed.
+
+(* ------------------------------------------------------------------ permutations from bijections *)
+Lemma NoDup_map_inj_in {A B} (p : A -> B) l :
+  (forall a b, In a l -> In b l -> p a = p b -> a = b) -> NoDup l -> NoDup (map p l).
+Proof.
+  intros Hinj Hnd. induction Hnd as [|a l Ha Hl IH]; simpl; constructor.
+  - intros Hin. apply in_map_iff in Hin. destruct Hin as [b [E Hb]].
+    assert (b = a) by (apply Hinj; [right; exact Hb|left; reflexivity|exact E]). subst. contradiction.
+  - apply IH. intros x y Hx Hy. apply Hinj; right; assumption.
+Qed.
+
+Lemma perm_of_injection {A} (p : A -> A) (l : list A) :
+  NoDup l -> (forall a, In a l -> In (p a) l) ->
+  (forall a b, In a l -> In b l -> p a = p b -> a = b) -> Permutation (map p l) l.
+Proof.
+  intros Hnd Hin Hinj. apply NoDup_Permutation_bis.
+  - apply NoDup_map_inj_in; assumption.
+  - rewrite map_length. lia.
+  - intros y Hy. apply in_map_iff in Hy. destruct Hy as [a [<- Ha]]. apply Hin. exact Ha.
+Qed.
+
+Lemma perm_of_bijection {A} (p q : A -> A) (l' l : list A) :
+  NoDup l' -> NoDup l ->
+  (forall a, In a l' -> In (p a) l /\ q (p a) = a) ->
+  (forall b, In b l -> In (q b) l' /\ p (q b) = b) ->
+  Permutation (map p l') l.
+Proof.
+  intros H' H Hp Hq. apply NoDup_Permutation.
+  - apply NoDup_map_inj_in; [|exact H']. intros a b Ha Hb E.
+    rewrite <- (proj2 (Hp a Ha)), <- (proj2 (Hp b Hb)), E. reflexivity.
+  - exact H.
+  - intros y. split.
+    + intros Hy. apply in_map_iff in Hy. destruct Hy as [a [<- Ha]]. apply Hp. exact Ha.
+    + intros Hy. apply in_map_iff. exists (q y). destruct (Hq y Hy) as [H1 H2]. split; assumption.
+Qed.
+
+(* ------------------------------------------------------------------ cyclic shift *)
+Lemma shift_mod_inj n a m1 m2 :
+  (m1 < n -> m2 < n -> (m1 + a) mod n = (m2 + a) mod n -> m1 = m2)%nat.
+Proof.
+  intros H1 H2 E. assert (Hn : n <> 0%nat) by lia.
+  pose proof (Nat.div_mod (m1 + a) n Hn) as D1. pose proof (Nat.div_mod (m2 + a) n Hn) as D2.
+  rewrite E in D1.
+  set (q1 := ((m1 + a) / n)%nat) in *. set (q2 := ((m2 + a) / n)%nat) in *.
+  assert (E2 : (n * q1 + m2 = n * q2 + m1)%nat) by lia.
+  destruct (lt_eq_lt_dec q1 q2) as [[Hl|He]|Hg].
+  - assert (n * q1 + n <= n * q2)%nat by nia. lia.
+  - rewrite He in E2. lia.
+  - assert (n * q2 + n <= n * q1)%nat by nia. lia.
+Qed.
+
+Lemma shift_valid shape s k : valid_idx shape k -> valid_idx shape (shift_idx shape s k).
+Proof.
+  unfold valid_idx. intros H. revert s. induction H as [|n m shape k Hm Hk IH]; intros s.
+  - destruct s; constructor.
+  - destruct s as [|a s]; simpl.
+    + constructor; assumption.
+    + constructor; [apply Nat.mod_upper_bound; lia|apply IH].
+Qed.
+
+Lemma shift_inj shape s k1 k2 : valid_idx shape k1 -> valid_idx shape k2 ->
+  shift_idx shape s k1 = shift_idx shape s k2 -> k1 = k2.
+Proof.
+  unfold valid_idx. intros H1. revert s k2.
+  induction H1 as [|n m shape k Hm Hk IH]; intros s k2 H2 E.
+  - inversion H2. reflexivity.
+  - inversion H2 as [|n' m2 shape' k2' Hm2 Hk2]; subst. destruct s as [|a s]; simpl in E.
+    + exact E.
+    + inversion E as [[E1 E2]]. f_equal.
+      * apply (shift_mod_inj n a); assumption.
+      * apply (IH s); assumption.
+Qed.
+
+Lemma shift_perm shape s : Permutation (map (shift_idx shape s) (all_idx shape)) (all_idx shape).
+Proof.
+  apply perm_of_injection.
+  - apply NoDup_all_idx.
+  - intros k Hk. apply in_all_idx. apply shift_valid. apply in_all_idx. exact Hk.
+  - intros k1 k2 H1 H2. apply shift_inj; apply in_all_idx; assumption.
+Qed.
+
+(* ------------------------------------------------------------------ reflection *)
+Lemma refl_mod_lt n m : (m < n -> (n - m) mod n < n)%nat.
+Proof. intros H. apply Nat.mod_upper_bound. lia. Qed.
+
+Lemma refl_mod_invol n m : (m < n -> (n - (n - m) mod n) mod n = m)%nat.
+Proof.
+  intros H. destruct m.
+  - rewrite Nat.sub_0_r, Nat.mod_same by lia. rewrite Nat.sub_0_r, Nat.mod_same by lia. reflexivity.
+  - rewrite (Nat.mod_small (n - S m)) by lia. replace (n - (n - S m))%nat with (S m) by lia.
+    apply Nat.mod_small; lia.
+Qed.
+
+Lemma reflect_valid shape ax k : valid_idx shape k -> valid_idx shape (reflect_idx shape ax k).
+Proof.
+  unfold valid_idx. intros H. revert ax. induction H as [|n m shape k Hm Hk IH]; intros ax.
+  - destruct ax; constructor.
+  - destruct ax as [|ax]; simpl; constructor; try assumption.
+    + apply refl_mod_lt. exact Hm.
+    + apply IH.
+Qed.
+
+Lemma reflect_invol shape ax k : valid_idx shape k ->
+  reflect_idx shape ax (reflect_idx shape ax k) = k.
+Proof.
+  unfold valid_idx. intros H. revert ax. induction H as [|n m shape k Hm Hk IH]; intros ax.
+  - destruct ax; reflexivity.
+  - destruct ax as [|ax]; simpl.
+    + f_equal. apply refl_mod_invol. exact Hm.
+    + f_equal. apply IH.
+Qed.
+
+Lemma reflect_perm shape ax :
+  Permutation (map (reflect_idx shape ax) (all_idx shape)) (all_idx shape).
+Proof.
+  apply (perm_of_bijection _ (reflect_idx shape ax)); try apply NoDup_all_idx.
+  - intros k Hk. apply in_all_idx in Hk. split; [apply in_all_idx, reflect_valid|apply reflect_invol]; exact Hk.
+  - intros k Hk. apply in_all_idx in Hk. split; [apply in_all_idx, reflect_valid|apply reflect_invol]; exact Hk.
+Qed.
+
+Lemma reflect_zero shape ax : Forall (fun n => (0 < n)%nat) shape ->
+  reflect_idx shape ax (zero_idx shape) = zero_idx shape.
+Proof.
+  intros H. revert ax. induction H as [|n rest Hn _ IH]; intros ax; simpl.
+  - destruct ax; reflexivity.
+  - destruct ax as [|ax]; simpl.
+    + rewrite Nat.sub_0_r, Nat.mod_same by lia. reflexivity.
+    + rewrite IH. reflexivity.
+Qed.
+
+(* ------------------------------------------------------------------ adjacent axis transposition *)
+Lemma swap_invol {A} i (l : list A) : swap_at i (swap_at i l) = l.
+Proof.
+  revert l. induction i as [|i IH]; intros l.
+  - destruct l as [|a [|b r]]; reflexivity.
+  - destruct l as [|a r]; simpl; [reflexivity|]. rewrite IH. reflexivity.
+Qed.
+
+Lemma swap_valid i shape k : valid_idx shape k -> valid_idx (swap_at i shape) (swap_at i k).
+Proof.
+  unfold valid_idx. intros H. revert i. induction H as [|n m shape k Hm Hk IH]; intros i.
+  - destruct i; constructor.
+  - destruct i as [|i]; simpl.
+    + inversion Hk; subst; repeat constructor; assumption.
+    + constructor; [exact Hm|apply IH].
+Qed.
+
+Lemma swap_perm i shape :
+  Permutation (map (swap_at i) (all_idx (swap_at i shape))) (all_idx shape).
+Proof.
+  apply (perm_of_bijection _ (swap_at i)); try apply NoDup_all_idx.
+  - intros k Hk. apply in_all_idx in Hk. split; [|apply swap_invol].
+    apply in_all_idx. rewrite <- (swap_invol i shape). apply swap_valid. exact Hk.
+  - intros k Hk. apply in_all_idx in Hk. split; [|apply swap_invol].
+    apply in_all_idx. apply swap_valid. exact Hk.
+Qed.
+
+Lemma swap_zero i shape : swap_at i (zero_idx (swap_at i shape)) = zero_idx shape.
+Proof.
+  revert shape. induction i as [|i IH]; intros shape.
+  - destruct shape as [|a [|b r]]; reflexivity.
+  - destruct shape as [|a r]; simpl; [reflexivity|]. rewrite IH. reflexivity.
+Qed.
+
+Lemma swap_pos i shape : Forall (fun n => (0 < n)%nat) shape ->
+  Forall (fun n => (0 < n)%nat) (swap_at i shape).
+Proof.
+  intros H. revert i. induction H as [|n rest Hn Hr IH]; intros i.
+  - destruct i; constructor.
+  - destruct i as [|i]; simpl.
+    + inversion Hr; subst; repeat constructor; assumption.
+    + constructor; [exact Hn|apply IH].
+Qed.
+
+Lemma size_swap i shape : size_of (swap_at i shape) = size_of shape.
+Proof.
+  unfold size_of. transitivity (length (map (swap_at i) (all_idx (swap_at i shape)))).
+  - symmetry. apply map_length.
+  - apply Permutation_length. apply swap_perm.
+Qed.
+
+Lemma incl_skipn_local {A} (n : nat) (l : list A) k : In k (skipn n l) -> In k l.
+Proof.
+  revert l. induction n as [|n IH]; intros l H; [exact H|].
+  destruct l as [|a l]; [exact H|]. right. apply IH. exact H.
+Qed.
